@@ -21,13 +21,17 @@ Definition py_nth {A} (l : list A) (r : Z) : res A :=
   if (0 <=? p) && (p <? n) then nth_res l (Z.to_nat p) else Err IndexError.
 
 (* Python `a == b` on IntExprLike operands: two ints compare to a bool; an int
-   on the left defers to the reflected IntExpr.__eq__ (operands swapped); for
-   anything else `==` falls back to identity, i.e. False *)
+   on the left defers to the reflected IntExpr.__eq__ (operands swapped); so
+   does a non-variable IntExpr on the left of an IntVar (for rich comparisons
+   CPython tries the right operand first when its class is a proper subclass of
+   the left one's); for anything else `==` falls back to identity, i.e. False *)
 Definition py_eq (a b : expr) : expr :=
   match a, b with
   | PyInt x, PyInt y => PyBool (x =? y)
   | PyInt _, (IVar _ _ _ | INode _ _) => BNode EQ [b; a]
-  | (IVar _ _ _ | INode _ _), (PyInt _ | IVar _ _ _ | INode _ _) => BNode EQ [a; b]
+  | INode _ _, IVar _ _ _ => BNode EQ [b; a]
+  | IVar _ _ _, (PyInt _ | IVar _ _ _ | INode _ _) => BNode EQ [a; b]
+  | INode _ _, (PyInt _ | INode _ _) => BNode EQ [a; b]
   | _, _ => PyBool false
   end.
 
@@ -47,29 +51,7 @@ Inductive division_arg := D1 (s : seq_arg) | D2 (h w : nat) (l : list expr).
 Inductive root_arg := RNone | RInt (r : Z) | RTup (l : list Z).
 
 (* ------------------------------------------------------------------------ *)
-(* array.py::_elementwise, only the two forms the primitive branch uses       *)
-
-Inductive operand := OScalar (e : expr) | OArr (l : list expr).
-
-(* division == i : a list compared with an int is Python's False; an
-   IntArray1D gives the array of raw BoolExpr(EQ, [d, i]) nodes *)
-Definition seq_eq_int (s : seq_arg) (i : Z) : operand :=
-  match s with
-  | SList _ => OScalar (PyBool false)
-  | SArr l => OArr (map (fun d => BNode EQ [d; PyInt i]) l)
-  end.
-
-(* region == other : _elementwise(IFF, region.shape, [region, other]) *)
-Definition arr_iff (region : list expr) (o : operand) : res (list expr) :=
-  match o with
-  | OScalar e =>
-      if is_bool_expr_like e then Ok (map (fun r => BNode IFF [r; e]) region)
-      else Err NotImplementedErr
-  | OArr l =>
-      if Nat.eqb (length l) (length region)
-      then Ok (zip_with (fun r x => BNode IFF [r; x]) region l)
-      else Err ValueError
-  end.
+(* the pieces of the primitive branch                                         *)
 
 Definition flat_edges (g : graph) : list expr :=
   flat_map (fun '(a, b) => [PyInt (Z.of_nat a); PyInt (Z.of_nat b)]) (edges g).
@@ -84,9 +66,12 @@ Definition avc_primitive_node (g : graph) (is_active : list expr) : res expr :=
 (* ------------------------------------------------------------------------ *)
 (* _division_connected, primitive branch                                      *)
 
-(* the vertex-wise form `region[j] == (division[j] == i)` *)
-Definition region_links (region : list expr) (s : seq_arg) (k : nat) : res (list expr) :=
-  arr_iff region (seq_eq_int s (Z.of_nat k)).
+(* [region[j] == (division[j] == i) for j in range(n)] : a BoolVar compared
+   with a BoolExpr / Python bool is BoolExpr(IFF, [region[j], ...]) *)
+Definition region_links (region labels : list expr) (n k : nat) : res (list expr) :=
+  mapM (fun j => let* r := nth_res region j in
+                 let* d := nth_res labels j in
+                 Ok (BNode IFF [r; py_eq d (PyInt (Z.of_nat k))])) (seq 0 n).
 
 Fixpoint prim_regions (st : state) (s : seq_arg) (g : graph) (aeg : bool) (ks : list nat)
   : res state :=
@@ -94,7 +79,7 @@ Fixpoint prim_regions (st : state) (s : seq_arg) (g : graph) (aeg : bool) (ks : 
   | [] => Ok st
   | k :: r =>
       let '(st1, region) := bool_array st (nv g) in
-      let* links := region_links region s k in
+      let* links := region_links region (seq_data s) (nv g) k in
       let st2 := ensure st1 links in
       let* node := avc_primitive_node g region in
       let st3 := ensure st2 [node] in
